@@ -50,6 +50,7 @@ class DevInfo:
         if ej is not None:
             self.eject_coil = ej.config.get("eject_coil") if hasattr(ej, "config") else None
             self.hold_coil = ej.config.get("hold_coil") if hasattr(ej, "config") else None
+        self.reorder_pulse = (ej.config.get("eject_coil_reorder_pulse") if ej is not None and hasattr(ej, "config") else None)
         self.mechanical = bool(dev.config["mechanical_eject"])
         self.target = dev.config["eject_targets"][0]
         self.confirm_switch = dev.config["confirm_eject_switch"]
@@ -156,6 +157,14 @@ class PinWorld:
             return
         if rec["op"] not in ("pulse", "enable", "timed_enable"):
             return
+        if info.reorder_pulse and rec["op"] == "pulse" and rec.get("pulse_ms") == info.reorder_pulse:
+            # a weak pulse that only shakes the balls: nothing leaves; balls lying between their switches may settle
+            self.ctx.log("coil", info.name, "reorder", t=rec["t"])
+            self.ctx.probe("reorder_pulse")
+            if any(b.kind == "dev" and b.dev == info.name and b.switch is None for b in self.balls) and \
+                    self.rt.flag("reorder_helps", 0.5):
+                self._later(0.3, self._settle, info)
+            return
         self.coil_log.append((rec["t"], info.name))
         self.ctx.log("coil", info.name, rec["op"], t=rec["t"])
         for fn in self.on_coil:
@@ -187,6 +196,11 @@ class PinWorld:
         outcome = "ok"
         if p_fail and self.rt.flag("eject_fails", p_fail):
             outcome = self.rt.pick("eject_outcome", ["fallback", "stuck", "late"])
+            if info.jam_switch is not None and ball.switch is not info.jam_switch and self.count(info.name) >= 2 and \
+                    self.rt.flag("shaken", 0.5):
+                # the kicked ball drops back onto the jam switch and the other balls are shaken off their switches:
+                # only the jam switch is active until they settle (by themselves or helped by a reorder pulse)
+                outcome = "shake"
             if not info.ball_switches:
                 # a device that counts only at its entrance cannot sense a ball that stays or drops back inside:
                 # those outcomes are indistinguishable from success for any controller, so the world does not
@@ -227,6 +241,17 @@ class PinWorld:
             for o in self.balls:
                 if o is not ball and o.kind == "dev" and o.dev == info.name and o.switch is info.entrance_switch:
                     self._later(self.rt.pick("roll_off", [0.3, 0.15, 0.5]), self._roll_off, o, info)
+        if outcome == "shake":
+            ball.dst = info.name
+            for o in self.balls:
+                if o is not ball and o.kind == "dev" and o.dev == info.name and o.switch is not None \
+                        and o.switch is not info.jam_switch:
+                    self._switch(o.switch, 0)
+                    o.switch = None
+            self.ctx.probe("balls_shaken_off_switches")
+            self._later(min(0.3, info.eject_timeout * 0.8), self._arrive, ball, info.name, True)
+            self._later(self.rt.pick("settle_after", [1.0, 4.0, 9.0, 0.6]), self._settle, info)
+            return
         if outcome == "fallback":
             ball.dst = info.name
             # a ball that falls back does so within the device's eject timeout (that is what the timeout is configured for)
@@ -250,6 +275,23 @@ class PinWorld:
             tau = self.rt.pick("transit", [0.3, 0.1, 0.5, 0.9, 1.4])
             tau = min(tau, hi)
         self._later(tau, self._arrive, ball, info.target.name, False)
+
+    def _settle(self, info):
+        """Balls of a switch-counted device that lie between their switches roll onto free ones."""
+        occupied = {b.switch for b in self.balls if b.kind == "dev" and b.dev == info.name and b.switch is not None}
+        for b in self.balls:
+            if b.kind == "dev" and b.dev == info.name and b.switch is None and info.ball_switches:
+                for sw in info.ball_switches:
+                    if sw not in occupied:
+                        b.switch = sw
+                        occupied.add(sw)
+                        self._switch(sw, 1)
+                        # to the device's switches a ball that appears on a ball switch looks exactly like the ball it
+                        # just ejected coming back (return ambiguity)
+                        for o in self.balls:
+                            if o.kind == "transit" and o.src == info.name:
+                                o.ambiguous = True
+                        break
 
     def _roll_off(self, ball, info):
         if ball.kind == "dev" and ball.dev == info.name and ball.switch is info.entrance_switch \
